@@ -43,6 +43,7 @@ class UnitResult(object):
         self.bodies = set()
         self.models = set()
         self.cvc5 = dict(checked=0, agree=0, disagree=0, skipped=0)
+        self.traces_validated = 0       # symbolic paths whose prediction (outcome under a model of the path condition) was confirmed natively
         self.extra = {}
 
 
@@ -201,7 +202,9 @@ def finish(pid, results, *, rule, explanation, assumptions, bounds, functions_hi
     bodies = set()
     modelsu = set()
     cv = dict(checked=0, agree=0, disagree=0, skipped=0)
+    traces = 0
     for r in results:
+        traces += getattr(r, 'traces_validated', 0)
         agg['paths'] += r.paths
         agg['nontrivial'] += r.nontrivial_paths
         agg['obligations'] += r.obligations
@@ -287,6 +290,7 @@ def finish(pid, results, *, rule, explanation, assumptions, bounds, functions_hi
         std_models_used=sorted(modelsu)[:300],
         source_hash=fe['hash'],
         cvc5_cross_check=cv,
+        traces_validated_against_impl=traces,
         known_findings_hit=sorted(known_hits),
         not_reproduced=len(nonrepro),
         proxy_only_counterexamples=len(benign),
